@@ -27,7 +27,7 @@ def excluded(fd, n):
 
 def gen_acc_pkg(rng, name, p_type_dir=0.35, p_exported_dir=0.0, **opts):
     """a ctorgen package with get/set directives on unexported fields and type-level directives"""
-    base = dict(getset_dirs=True, p_under=0.04, p_tag=0.12, p_shadow=0.12, p_def=0.15, p_new=0.15)
+    base = dict(getset_dirs=True, p_under=0.012, p_tag=0.035, p_shadow=0.06, p_def=0.15, p_new=0.15)
     base.update(opts)
     pkg = ctorgen.gen_struct_pkg(rng, name, **base)
     for sd in pkg["structs"]:
